@@ -13,7 +13,7 @@ NS_URIS = [
     "http://other.org/ns#", "http://ex.org", "https://w3id.org/é/",
 ]
 NS_URIS_ASCII = [u for u in NS_URIS if u.isascii()]
-PREFIXES = ["ex", "ex2", "other", "ex_1", "dn", "p", "Q-1", "ex_2", "zz", "dn_1"]
+PREFIXES = ["ex", "ex2", "other", "ex_1", "dn", "p", "Q-1", "ex_2", "zz", "dn_1", "xsd", "prov"]
 LOCALS = ["e1", "e2", "a1", "a2", "ag1", "b/1", "x.y", "x-y", "été", "_u", "1st", "r1", "r2", "c1", "pl1"]
 ATTR_LOCALS = ["tag", "tag2", "v", "n_1", "été"]
 PROV_EXTRA = ["type", "label", "value", "location", "role"]
@@ -279,6 +279,8 @@ class Gen:
                 matching = SUBTYPES_OF.get(kind)
                 local = r.choice(matching) if matching and r.random() < 0.7 else r.choice(PROV_CLASS_TYPES)
                 val = {"k": "qn", "name": {"form": "prov", "local": local}}
+                if r.random() < 0.2:
+                    val = {"k": "uri", "v": "http://www.w3.org/ns/prov#" + local}
             elif self.p["label_plain"] and an.get("s") == "prov:label":
                 val = self.rand_value(t, kinds=("str", "lang"))
             else:
